@@ -122,3 +122,124 @@ Proof.
   intros Hi Hc x Hx. apply reach_minimal in Hx. destruct Hx as [s [Hs Hsx]].
   eapply reach_closed; [exact Hc | | exact Hsx]. apply reach_seeds. eapply seeds_incl; eauto.
 Qed.
+
+(* ---------- the fuel always suffices: the saturation is closed after |es| rounds ---------- *)
+Definition step (es : list (N * N)) (S : list N) : list N := dedupN (S ++ succs es S).
+Definition missing (es : list (N * N)) (S : list N) : nat := length (filter (fun e => negb (memN (snd e) S)) es).
+
+Lemma saturate_step fuel es S : saturate (Datatypes.S fuel) es S = saturate fuel es (step es S).
+Proof. reflexivity. Qed.
+
+Lemma step_extends es S x : In x S -> In x (step es S).
+Proof. intros H. unfold step. apply (proj2 (dedupN_In _ _)). apply in_or_app. left. exact H. Qed.
+
+Lemma memN_false x l : memN x l = false <-> ~ In x l.
+Proof.
+  split.
+  - intros H Hin. apply memN_In in Hin. congruence.
+  - intros H. destruct (memN x l) eqn:E; [|reflexivity]. apply memN_In in E. contradiction.
+Qed.
+
+Lemma filter_length_le {A} (p q : A -> bool) l : (forall x, In x l -> q x = true -> p x = true) ->
+  (length (filter q l) <= length (filter p l))%nat.
+Proof.
+  induction l as [|a r IH]; intros H; cbn [filter]; [lia|].
+  assert (IH' : (length (filter q r) <= length (filter p r))%nat) by (apply IH; intros x Hx; apply H; right; exact Hx).
+  destruct (q a) eqn:Q.
+  - rewrite (H a (or_introl eq_refl) Q). cbn [length]. lia.
+  - destruct (p a); cbn [length]; lia.
+Qed.
+
+Lemma filter_length_lt {A} (p q : A -> bool) l e : (forall x, In x l -> q x = true -> p x = true) ->
+  In e l -> p e = true -> q e = false -> (length (filter q l) < length (filter p l))%nat.
+Proof.
+  induction l as [|a r IH]; intros H Hin Pe Qe; [destruct Hin|].
+  cbn [filter]. destruct Hin as [->|Hin].
+  - rewrite Pe, Qe. cbn [length].
+    assert ((length (filter q r) <= length (filter p r))%nat) by (apply filter_length_le; intros x Hx; apply H; right; exact Hx). lia.
+  - assert (IH' : (length (filter q r) < length (filter p r))%nat) by (apply IH; auto; intros x Hx; apply H; right; exact Hx).
+    destruct (q a) eqn:Q.
+    + rewrite (H a (or_introl eq_refl) Q). cbn [length]. lia.
+    + destruct (p a); cbn [length]; lia.
+Qed.
+
+Lemma closedb_false es S : closedb es S = false -> exists a b, In (a, b) es /\ In a S /\ ~ In b S.
+Proof.
+  unfold closedb. intros H.
+  assert (E : exists e, In e es /\ implb (memN (fst e) S) (memN (snd e) S) = false).
+  { induction es as [|e r IH]; cbn [forallb] in H; [discriminate|].
+    apply andb_false_iff in H. destruct H as [H|H].
+    - exists e. split; [left; reflexivity | exact H].
+    - destruct (IH H) as [e' [H1 H2]]. exists e'. split; [right; exact H1 | exact H2]. }
+  destruct E as [[a b] [Hin Himp]]. cbn [fst snd] in Himp.
+  destruct (memN a S) eqn:A; cbn [implb] in Himp; [|discriminate].
+  exists a, b. split; [exact Hin|]. split; [apply memN_In; exact A | apply memN_false; exact Himp].
+Qed.
+
+Lemma missing_step_lt es S : closedb es S = false -> (missing es (step es S) < missing es S)%nat.
+Proof.
+  intros H. destruct (closedb_false es S H) as [a [b [Hin [Ha Hb]]]].
+  unfold missing. apply filter_length_lt with (e := (a, b)).
+  - intros x Hx Q. apply negb_true_iff in Q. apply negb_true_iff. apply memN_false. apply memN_false in Q.
+    intros Hs. apply Q. apply step_extends. exact Hs.
+  - exact Hin.
+  - cbn [snd]. apply negb_true_iff. apply memN_false. exact Hb.
+  - cbn [snd]. apply negb_false_iff. apply memN_In. unfold step. apply (proj2 (dedupN_In _ _)).
+    apply in_or_app. right. apply succs_In with a; assumption.
+Qed.
+
+Lemma closedb_ext es S S' : (forall x, In x S <-> In x S') -> closedb es S = closedb es S'.
+Proof.
+  intros H. unfold closedb.
+  assert (M : forall x, memN x S = memN x S').
+  { intros x. destruct (memN x S) eqn:A, (memN x S') eqn:B; try reflexivity.
+    - apply memN_In in A. apply H in A. apply memN_In in A. congruence.
+    - apply memN_In in B. apply H in B. apply memN_In in B. congruence. }
+  induction es as [|e r IH]; cbn [forallb]; [reflexivity|]. rewrite !M, IH. reflexivity.
+Qed.
+
+Lemma closed_step es S : closedb es S = true -> closedb es (step es S) = true.
+Proof.
+  intros H. rewrite <- H. symmetry. apply closedb_ext. intros x. split.
+  - apply step_extends.
+  - unfold step. intros Hx. apply (proj1 (dedupN_In _ _)) in Hx. apply in_app_or in Hx. destruct Hx as [Hx|Hx]; [exact Hx|].
+    apply succs_sound in Hx. destruct Hx as [a [Ha Hab]]. eapply closedb_spec; eauto.
+Qed.
+
+Lemma closed_saturate fuel es : forall S, closedb es S = true -> closedb es (saturate fuel es S) = true.
+Proof.
+  induction fuel as [|f IH]; intros S H; [exact H|]. rewrite saturate_step. apply IH. apply closed_step. exact H.
+Qed.
+
+Lemma missing_zero_closed es S : missing es S = O -> closedb es S = true.
+Proof.
+  unfold missing, closedb. intros H. apply forallb_forall. intros e He.
+  destruct (memN (snd e) S) eqn:B; [destruct (memN (fst e) S); reflexivity|].
+  exfalso. assert (Hin : In e (filter (fun e => negb (memN (snd e) S)) es)) by (apply filter_In; split; [exact He | rewrite B; reflexivity]).
+  destruct (filter (fun e0 => negb (memN (snd e0) S)) es); [destruct Hin | discriminate].
+Qed.
+
+Lemma saturate_closed_gen fuel es : forall S, (missing es S <= fuel)%nat -> closedb es (saturate fuel es S) = true.
+Proof.
+  induction fuel as [|f IH]; intros S H.
+  - cbn [saturate]. apply missing_zero_closed. lia.
+  - destruct (closedb es S) eqn:C.
+    + apply closed_saturate. exact C.
+    + rewrite saturate_step. apply IH. pose proof (missing_step_lt es S C). lia.
+Qed.
+
+Lemma filter_length_total {A} (p : A -> bool) l : (length (filter p l) <= length l)%nat.
+Proof. induction l as [|a r IH]; cbn [filter length]; [lia|]. destruct (p a); cbn [length]; lia. Qed.
+
+Theorem saturate_closed es S : closedb es (saturate (length es) es S) = true.
+Proof. apply saturate_closed_gen. unfold missing. apply filter_length_total. Qed.
+
+Corollary reach_always_closed ss ops : snd (reach ss ops) = true.
+Proof. unfold reach. cbn [snd]. apply saturate_closed. Qed.
+
+Corollary cyclicb_exact es n : cyclicb es n = true <-> clos_trans N (edge es) n n.
+Proof.
+  split.
+  - apply cyclicb_sound. apply saturate_closed.
+  - apply cyclicb_complete.
+Qed.
